@@ -76,14 +76,14 @@ Proof.
   - intros C. eapply step_pexit; eauto.
 Qed.
 
-Lemma Jc_gpath o cfg pos lp ss sd cm wc fi ex s gx s' gx' : G o s gx -> gpath cfg notfin s gx s' gx' ->
+Lemma Jc_gpath o cfg pos lp ss sd cm wc fi ex s gx s' gx' : G o s gx -> gpath cfg (fun _ e => notfin e) s gx s' gx' ->
   Jc pos lp ss sd cm wc fi ex s gx -> Jc pos lp ss sd cm wc fi ex s' gx'.
 Proof.
   intros Hg Hp. induction Hp as [|s x e s1 s' x' Hn Hs Hp IH]; [auto|]. intros Hj.
   apply IH; [eapply G_step; eauto|]. eapply Jc_step; eauto. eapply G_inv1; eauto.
 Qed.
 
-Lemma gpath_acks_same cfg s gx s' gx' : gpath cfg notfin s gx s' gx' -> g_acks (gs_g gx') = g_acks (gs_g gx).
+Lemma gpath_acks_same cfg s gx s' gx' : gpath cfg (fun _ e => notfin e) s gx s' gx' -> g_acks (gs_g gx') = g_acks (gs_g gx).
 Proof. induction 1 as [|s x e s1 s' x' Hn Hs Hp IH]; [reflexivity|]. rewrite IH. apply gstep_acks_same. exact Hn. Qed.
 
 Lemma gpath_closed cfg P s gx s' gx' : gpath cfg P s gx s' gx' ->
@@ -102,12 +102,12 @@ Proof. apply Z.eqb_neq. Qed.
 (** ---- one accepted entry ---- *)
 Lemma entry_inv o cfg bs cfgsx objs ops m x e x' gx :
   G o (x_sys x) gx -> J m (x_sys x) gx -> replay_entry cfg bs x e = Some x' ->
-  exists gx', gpath cfg (fun _ => True) (x_sys x) gx (x_sys x') gx' /\
+  exists gx', gpath cfg (allowed e) (x_sys x) gx (x_sys x') gx' /\
               J (mon_entry cfgsx objs ops m e) (x_sys x') gx' /\ post e x gx x' gx'.
 Proof.
   intros Hg Hj H.
   destruct (replay_entry_sound cfg bs x e x' gx (proj2 Hg) H) as [gx' [Hp Hpost]].
-  exists gx'. split; [eapply gpath_weaken; [|exact Hp]; auto|]. split; [|exact Hpost].
+  exists gx'. split; [exact Hp|]. split; [|exact Hpost].
   assert (Hg' : G o (x_sys x') gx') by (eapply G_gpath; eauto).
   destruct (mon_entry_fields cfgsx objs ops m e) as [F1 [F2 [F3 [F4 [F5 [F6 [F7 [F8 _]]]]]]]].
   unfold J. rewrite F1, F2, F3, F4, F5, F6, F7, F8. clear F1 F2 F3 F4 F5 F6 F7 F8.
@@ -120,8 +120,8 @@ Proof.
     - intros z w _ L. specialize (B4 z). lia.
     - intros C. apply (gpath_closed _ _ _ _ _ _ Hp). apply F. exact C.
     - intros C. apply (gpath_pexit o _ _ _ _ _ _ Hg Hp). apply E. exact C. }
-  assert (Hp' : gpath cfg notfin (x_sys x) gx (x_sys x') gx').
-  { eapply gpath_weaken; [|exact Hp]. intros ev [Hc|Hc]; [contradiction|exact Hc]. }
+  assert (Hp' : gpath cfg (fun _ ev => notfin ev) (x_sys x) gx (x_sys x') gx').
+  { eapply gpath_weaken; [|exact Hp]. intros s0 ev [[Hc|Hc] _]; [contradiction|exact Hc]. }
   pose proof (Jc_gpath _ _ _ _ _ _ _ _ _ _ _ _ _ _ Hg Hp' Hj) as Hj'.
   pose proof (gpath_acks_same _ _ _ _ _ Hp') as Hacks.
   destruct Hpost as [Q8a [Q8b [Q9 [Q6 [Q13 [_ [Q18 _]]]]]]].
@@ -178,19 +178,40 @@ Proof.
   constructor; try lia; auto.
 Qed.
 
-(** ---- all entries of an incarnation ---- *)
-Lemma entries_inv o cfg bs cfgsx objs ops : forall es n m x x1 gx,
-  G o (x_sys x) gx -> J m (x_sys x) gx -> replay_entries cfg bs n x es = (x1, []) ->
-  exists gx1, gpath cfg (fun _ => True) (x_sys x) gx (x_sys x1) gx1 /\
-              J (fold_left (mon_entry cfgsx objs ops) es m) (x_sys x1) gx1.
+(** ---- the state on the medium ([x_state], what the next incarnation is restored from) is the
+    state of the model's newest completed write ---- *)
+Definition K (st0 : pstate) (x : xst) (gx : gsys) : Prop :=
+  x_state x = match gs_writes gx with w :: _ => gw_state w | [] => st0 end.
+
+Lemma entry_K cfg st0 e x gx x' gx' : K st0 x gx -> gpath cfg (allowed e) (x_sys x) gx (x_sys x') gx' ->
+  post e x gx x' gx' -> K st0 x' gx'.
 Proof.
-  induction es as [|e es IH]; intros n m x x1 gx Hg Hj H; cbn in H.
-  - inversion H; subst. exists gx. split; [constructor|exact Hj].
+  intros Hk Hp [_ [_ [_ [_ [Q13 [Q13f [_ Qs]]]]]]]. unfold K in *.
+  destruct (Z.eq_dec (tag e) 13) as [E|N].
+  - destruct (sx_bool (sx_nth e 2)) eqn:B.
+    + destruct (Q13 E eq_refl) as [w [_ [Hw Hs]]]. rewrite Hw. exact Hs.
+    + destruct (Q13f E eq_refl) as [Hs Hw]. rewrite Hs, Hw. exact Hk.
+  - rewrite (Qs N).
+    assert (Hw : gs_writes gx' = gs_writes gx).
+    { apply (gpath_writes_same cfg (x_sys x) gx (x_sys x') gx'). eapply gpath_weaken; [|exact Hp].
+      intros s0 ev [_ [Hc|Hc]]; [contradiction|exact Hc]. }
+    rewrite Hw. exact Hk.
+Qed.
+
+(** ---- all entries of an incarnation ---- *)
+Lemma entries_inv o cfg bs cfgsx objs ops st0 : forall es n m x x1 gx,
+  G o (x_sys x) gx -> J m (x_sys x) gx -> K st0 x gx -> replay_entries cfg bs n x es = (x1, []) ->
+  exists gx1, gpath cfg (fun _ _ => True) (x_sys x) gx (x_sys x1) gx1 /\
+              J (fold_left (mon_entry cfgsx objs ops) es m) (x_sys x1) gx1 /\ K st0 x1 gx1.
+Proof.
+  induction es as [|e es IH]; intros n m x x1 gx Hg Hj Hk H; cbn in H.
+  - inversion H; subst. exists gx. split; [constructor|auto].
   - destruct (replay_entry cfg bs x e) as [x'|] eqn:R; [|discriminate].
-    destruct (entry_inv o cfg bs cfgsx objs ops m x e x' gx Hg Hj R) as [gx' [Hp [Hj' _]]].
+    destruct (entry_inv o cfg bs cfgsx objs ops m x e x' gx Hg Hj R) as [gx' [Hp [Hj' Hpost]]].
     assert (Hg' : G o (x_sys x') gx') by (eapply G_gpath; eauto).
-    destruct (IH _ _ _ _ _ Hg' Hj' H) as [gx1 [Hp1 Hj1]].
-    exists gx1. split; [eapply gpath_trans; eauto|exact Hj1].
+    pose proof (entry_K cfg st0 e x gx x' gx' Hk Hp Hpost) as Hk'.
+    destruct (IH _ _ _ _ _ Hg' Hj' Hk' H) as [gx1 [Hp1 [Hj1 Hk1]]].
+    exists gx1. split; [|auto]. eapply gpath_trans; [|exact Hp1]. eapply gpath_weaken; [|exact Hp]. auto.
 Qed.
 
 (** ---- the start of an incarnation ---- *)
@@ -220,7 +241,7 @@ Qed.
 
 (** the state the replay starts an incarnation in is NewPersistentBlockList + NewPeriodicSyncer *)
 Lemma replay_restore_init c cfg bs st0 now e0 x0 : replay_restore c cfg bs st0 now e0 = Some x0 ->
-  tag e0 = 0%Z /\
+  tag e0 = 0%Z /\ x_state x0 = st0 /\
   exists alloc oldest init, x_sys x0 = init_sys (fst (pbl_new alloc oldest init)) now.
 Proof.
   unfold replay_restore. cbv zeta. destruct (negb (Z.eqb (tag e0) 0)) eqn:T; cbn [orb]; [discriminate|].
@@ -229,7 +250,7 @@ Proof.
   destruct (pbl_new al ol il) as [p n] eqn:Ep.
   destruct (get_persistent_state p) as [[p' view]|] eqn:Eg; [|discriminate].
   match goal with |- (if ?c then _ else _) = _ -> _ => destruct c; [|discriminate] end.
-  intros H; inversion H; subst x0. cbn [x_sys]. split.
+  intros H; inversion H; subst x0. cbn [x_sys x_state]. split; [|split; [reflexivity|]].
   - apply Bool.negb_false_iff, Z.eqb_eq in T. exact T.
   - exists al, ol, il. rewrite Ep. cbn [fst].
     assert (p = fst (pbl_new al ol il)) by (rewrite Ep; reflexivity). subst p.
@@ -255,26 +276,36 @@ Theorem mon03_incarnation_sound c cfg bs st0 now e0 es x0 x1 cfgsx objs ops m0 :
   let m1 := fold_left (mon_entry cfgsx objs ops) (e0 :: es) m0 in
   exists alloc oldest init gx,
     greachable cfg alloc oldest init now (x_sys x1) gx /\
+    (* the state on the medium at the end of the incarnation *)
+    x_state x1 = match gs_writes gx with w :: _ => gw_state w | [] => st0 end /\
     (m_final m1 = true -> closedForWriting (s_pbl (x_sys x1)) = true) /\
     (m_exited m1 = true -> s_p (x_sys x1) = PExit) /\
     (m_prev (mon_exit m1) <> 0%Z ->
-       exists w rest, gs_writes gx = w :: rest /\ gw_cohort w = g_acks (gs_g gx) /\
+       exists w rest, gs_writes gx = w :: rest /\ x_state x1 = gw_state w /\
+                      gw_cohort w = g_acks (gs_g gx) /\
                       forall a, In a (g_acks (gs_g gx)) -> covers w a).
 Proof.
   intros Hr He Hf m1. subst m1. cbn [fold_left].
-  destruct (replay_restore_init _ _ _ _ _ _ _ Hr) as [T0 [alloc [oldest [init Hx0]]]].
+  destruct (replay_restore_init _ _ _ _ _ _ _ Hr) as [T0 [Hst [alloc [oldest [init Hx0]]]]].
   pose proof (G_init alloc oldest init now) as Hg0. rewrite <- Hx0 in Hg0.
   pose proof (J_restore_entry cfgsx objs ops m0 e0 (x_sys x0) g0 T0 Hf) as Hj0.
-  destruct (entries_inv oldest cfg bs cfgsx objs ops es 1 _ x0 x1 g0 Hg0 Hj0 He) as [gx [Hp Hj]].
+  assert (Hk0 : K st0 x0 g0) by (unfold K; cbn; exact Hst).
+  destruct (entries_inv oldest cfg bs cfgsx objs ops st0 es 1 _ x0 x1 g0 Hg0 Hj0 Hk0 He) as [gx [Hp [Hj Hk]]].
   assert (R : greachable cfg alloc oldest init now (x_sys x1) gx).
   { eapply greachable_gpath; [|exact Hp]. exists []. cbn. rewrite Hx0. reflexivity. }
-  exists alloc, oldest, init, gx. split; [exact R|].
+  exists alloc, oldest, init, gx. split; [exact R|]. split; [exact Hk|].
   set (m1 := fold_left _ es _) in *.
   split; [apply (j_f _ _ _ _ _ _ _ _ _ _ Hj)|]. split; [apply (j_e _ _ _ _ _ _ _ _ _ _ Hj)|].
+  assert (Hfin : (exists w rest, gs_writes gx = w :: rest /\ gw_cohort w = g_acks (gs_g gx) /\
+                   forall a, In a (g_acks (gs_g gx)) -> covers w a) ->
+                 exists w rest, gs_writes gx = w :: rest /\ x_state x1 = gw_state w /\
+                   gw_cohort w = g_acks (gs_g gx) /\ forall a, In a (g_acks (gs_g gx)) -> covers w a).
+  { intros [w [rest [Hw [Hc Ha]]]]. exists w, rest. unfold K in Hk. rewrite Hw in Hk. auto. }
   unfold mon_exit. cbn [m_prev]. destruct (m_exited m1) eqn:Ex.
-  - intros _. destruct (graceful_all _ _ _ _ _ _ _ R (j_e _ _ _ _ _ _ _ _ _ _ Hj Ex)) as [_ Hw]. exact Hw.
+  - intros _. apply Hfin.
+    destruct (graceful_all _ _ _ _ _ _ _ R (j_e _ _ _ _ _ _ _ _ _ _ Hj Ex)) as [_ Hw]. exact Hw.
   - destruct (Nat.ltb_spec (m_lastput m1) (m_commit m1)) as [L|L]; [|intros Hc; exfalso; apply Hc; reflexivity].
-    intros _. destruct (j_p4 _ _ _ _ _ _ _ _ _ _ Hj L) as [w [Hin Hc]].
+    intros _. apply Hfin. destruct (j_p4 _ _ _ _ _ _ _ _ _ _ Hj L) as [w [Hin Hc]].
     eapply crash_commit_covers_all; eauto.
 Qed.
 
